@@ -3,6 +3,8 @@
 import json, sys
 pid = sys.argv[1]
 n = sys.argv[2] if len(sys.argv) > 2 else "2"
+first = int(sys.argv[3]) if len(sys.argv) > 3 else 1
+last = first + int(n) - 1
 for l in open("/verif/properties.jsonl"):
     p = json.loads(l)
     if p["id"] == pid:
@@ -20,7 +22,7 @@ Requirements for each mutant:
 3. With the mutant applied the existing suite must still pass. Run it from the worktree:  cd /tmp/wt/{pid} && /venv/bin/python -m pytest -q -p no:cacheprovider -x --timeout=900 2>&1 | tail -5   (takes ~90 s; expect "534 passed, 26 skipped" like the unmodified tree). First confirm that the worktree's code is what runs: cd /tmp/wt/{pid} && /venv/bin/python -c "import paramiko; print(paramiko.__file__)" must print a path under /tmp/wt/{pid}.
 4. Provide a demonstration: a standalone script demo.py (run as: cd /tmp/wt/{pid} && /venv/bin/python MUTANTS/<name>/demo.py) that exits 0 and prints PASS on the unmodified worktree and exits 1 printing FAIL on the mutated worktree. The demo may use threads, paramiko's tests/_loop.LoopSocket, monkeypatching, sleeps or forced orderings (e.g. events/hooks placed by the demo itself) to force the specific situation; it must be reliable (same result 5 times in a row) and finish in under 60 s.
 
-Deliverables, for each mutant k = 1..{n}, in directory /tmp/wt/{pid}/MUTANTS/m<k>/ :
+Deliverables, for each mutant k = {first}..{last}, in directory /tmp/wt/{pid}/MUTANTS/m<k>/ :
   - patch.diff : produced with `git -C /tmp/wt/{pid} diff -- paramiko > MUTANTS/m<k>/patch.diff` while only that mutant is applied (it must apply with `git apply` to a clean checkout);
   - demo.py : the demonstration;
   - notes.md : 5-10 lines: what was changed, why it breaks the property, what it needs in order to manifest, and the exact commands you ran with their results (suite result with the mutant, demo result with and without).
